@@ -13,3 +13,5 @@ open RV.C09
 #print axioms eq_agrees
 #print axioms term_eq_implies_eq_partial
 #print axioms denotes_cases
+#print axioms duration_roundtrip
+#print axioms duration_printer_total
